@@ -320,7 +320,9 @@ class PeakLoadWindow(Strategy):
                             if ts_idx == 0:
                                 vehicle.schedule = power
                         needs_charging = vehicle.desired_soc - vehicle.battery.soc > self.EPS
-                        if not needs_charging or not potential or step <= 0:
+                        if (not needs_charging or not potential
+                                or balanced_power + step <= balanced_power):
+                            # (step <= 0, or step too small to raise balanced_power in floating point)
                             break
                         # power ceiling not reached and SoC not reached:
                         # increase balanced charging power by step
